@@ -105,13 +105,22 @@ def gen_case(rng, thorough):
         ops.append({"op": "addFact", "loc": rng.choice(locs), "id": "f%d" % i, "fact": f})
     for _ in range(rng.randint(2, 5)):
         g = QG(rng)
-        q = g.query(rng.randint(1, 4 if not thorough else 6), set(), facts)
-        if rng.random() < 0.75:
+        as_rule = rng.random() >= 0.75
+        # as a rule condition the query starts from the bindings of the rule's `when` match; a `when` pattern may bind the names
+        # ?location / ?ruleId itself, and the condition then runs with THOSE values (they are only added when absent)
+        own = rng.choice(["?location", "?ruleId"]) if as_rule and rng.random() < 0.4 else None
+        q = g.query(rng.randint(1, 4 if not thorough else 6), {own} if own else set(), facts)
+        if not as_rule:
             ops.append({"op": "query", "loc": "a", "query": q})
         else:
             # the same query as a rule condition: its result bindings are what the action sees
-            ops.append({"op": "addRule", "loc": "a", "id": "rq", "rule": {"when": {"pattern": {"go": "?g"}}, "condition": q, "action": {"code": "Env.bindings", "verif_tmpl": {"t": "echo"}}}})
-            ops.append({"op": "event", "loc": "a", "event": {"go": rng.choice([1, "x"])}})
+            when = {"go": "?g"}
+            ev = {"go": rng.choice([1, "x"])}
+            if own:
+                when["l"] = own
+                ev["l"] = rng.choice(VALS)
+            ops.append({"op": "addRule", "loc": "a", "id": "rq", "rule": {"when": {"pattern": when}, "condition": q, "action": {"code": "Env.bindings", "verif_tmpl": {"t": "echo"}}}})
+            ops.append({"op": "event", "loc": "a", "event": ev})
     return locs, ops
 
 def has_code(q):
